@@ -21,13 +21,34 @@
 (* by the harness, three non-commuting ones per kind), MixinClasses (the    *)
 (* built-in mixins of the live registry), MixOpTab, MixProfTab, MixBases,     *)
 (* MixIncompat.                                                             *)
+(*                                                                         *)
+(* SUB-SECTIONS.  A [Chemistry] section carries gas sub-sections ([[H2O]]   *)
+(* gas_type = ..), a [Model] section contribution sub-sections              *)
+(* ([[Absorption]] ..).  What they build belongs to the object graph of     *)
+(* the section whatever the FORM of its selector:                           *)
+(*     plain       chemistry_type = free                                    *)
+(*     composite   chemistry_type = makefree+file   (mixins.rst), any       *)
+(*                 mixin1+..+base whose classes provide the adding method   *)
+(*     custom      chemistry_type = custom, python_file = ...               *)
+(* `subs` is the written sequence of sub-sections (<= MaxSubs, forms with   *)
+(* <= MaxSubMix mixins); SubAdders (generated) names the classes -- base,   *)
+(* mixin or custom -- that provide addGas / add_contribution, i.e. the      *)
+(* forms through which the LIBRARY can attach them; the built graph then    *)
+(* holds one object per sub-section, in the written order, of the unique    *)
+(* class of its selector, with its keys typed (SubsectionsReachComponent),  *)
+(* and it is the same graph for every form (SubsFormIndependent).           *)
+(* A custom python_file resolves to the class DEFINED in that file, not to  *)
+(* a class the file imports to derive from (CustomBases.imports).           *)
 (***************************************************************************)
 EXTENDS FactoryOps, Rat
 CONSTANTS MaxMix,       \* at most this many mixins in front of the base
           MixKeys,      \* "few": no key / one key / all keys;  "all": every subset of the keys in play
+          MaxSubs,      \* at most this many sub-sections under the section (0: none)
+          MaxSubMix,    \* sub-sections are written under forms with at most this many mixins (0 = plain / custom only)
+          SubErrLen,    \* the unknown-key / unknown-selector variants are written with at most this many sub-sections
           Export
-VARIABLES phase, kind, toks, nmix, variant, base, keys, vals, front, picks, bpick, out
-vars == <<phase, kind, toks, nmix, variant, base, keys, vals, front, picks, bpick, out>>
+VARIABLES phase, kind, toks, nmix, variant, base, keys, vals, subs, front, picks, bpick, out
+vars == <<phase, kind, toks, nmix, variant, base, keys, vals, subs, front, picks, bpick, out>>
 
 AllMixins == MixinClasses \cup HarnessMixins
 Pool(k) == {m \in AllMixins : m.kind = k}
@@ -53,18 +74,38 @@ KeyNamesOf(ks) == {x.name : x \in ks}
 
 MixVariants == {"plain", "basefirst", "twobases", "unknownmixin", "unknownkey"}
 
+\* ------------------------------------------------------------ sub-sections
+SubKindOf(k) == IF k = "chemistry" THEN "gas" ELSE IF k = "model" THEN "contribution" ELSE "none"
+SubPool(k) == {s \in SubChoices : s.kind = SubKindOf(k)}
+\* sequences of at most n sub-sections with distinct names, in every written order
+RECURSIVE SubSeqsOf(_, _)
+SubSeqsOf(S, n) == IF n = 0 THEN {<<>>}
+                   ELSE {<<>>} \cup UNION {{<<x>> \o t : t \in SubSeqsOf({y \in S : y.name # x.name}, n - 1)} : x \in S}
+SubVariants == {"unknownsubkey", "unknownsubsel"}
+\* the library can attach sub-section objects through this form: one of its classes provides the adding method
+FormAdds(k, sq, b) == b.cls \in SubAdders \/ \E i \in 1..Len(sq) : \E m \in MCands(k, sq[i]) : m.name \in SubAdders
+CustomOf(b) == {c \in CustomBases : c.kind = b.kind /\ c.file = b.custom}
+
 Init == /\ phase = "cfg"
         /\ base \in MixBases
         /\ kind = base.kind
-        /\ \E sq \in MixSeqs(base.kind) :
+        /\ \E sq \in (IF base.custom # "" THEN {} ELSE MixSeqs(base.kind)) \cup (IF MaxSubs > 0 THEN {<<>>} ELSE {}) :
               /\ Distinct(base.kind, sq) /\ Compatible(base.kind, sq, base)
               /\ nmix = Len(sq)
-              /\ variant \in MixVariants
+              /\ variant \in (IF sq = <<>> THEN {"plain"} ELSE MixVariants)
+                             \cup (IF MaxSubs > 0 /\ Len(sq) <= MaxSubMix /\ SubPool(base.kind) # {} /\ FormAdds(base.kind, sq, base)
+                                   THEN SubVariants ELSE {})
               /\ toks = CASE variant = "basefirst" -> <<base.sel>> \o sq
                           [] variant = "twobases"  -> sq \o <<base.sel, base.sel>>
                           [] variant = "unknownmixin" -> <<sq[1] \o "_zz">> \o Tail(sq) \o <<base.sel>>
                           [] OTHER -> sq \o <<base.sel>>
               /\ keys \in (IF variant = "plain" THEN KeySubsets(KeysInPlay(base.kind, sq, base)) ELSE {{}})
+              \* sub-sections: with no other key in play, under the forms through which the library can attach them;
+              \* a selector without mixins appears here only with sub-sections (alone it is Factory.tla's business)
+              /\ subs \in (IF keys = {} /\ Len(sq) <= MaxSubMix /\ FormAdds(base.kind, sq, base) /\ variant \in {"plain"} \cup SubVariants
+                           THEN SubSeqsOf(SubPool(base.kind), MaxSubs) ELSE {<<>>})
+              /\ (sq = <<>> \/ variant \in SubVariants) => subs # <<>>
+              /\ variant \in SubVariants => Len(subs) <= SubErrLen
         /\ vals \in {[n \in KeyNamesOf(keys) |-> c] : c \in 1..2}
         /\ front = <<>> /\ picks = <<>> /\ bpick = NoClass
         /\ out = [err |-> "pending"]
@@ -75,16 +116,31 @@ GivenRaw == [n \in KeyNamesOf(keys) \cup {f.name : f \in base.fixed} |->
                 ELSE (CHOOSE f \in base.fixed : f.name = n).raw]
 GivenNames == DOMAIN GivenRaw \cup (IF variant = "unknownkey" THEN {"not_a_key"} ELSE {})
 
+\* what the i-th sub-section says: the last one carries the unknown key / the unknown selector of the sub variants
+SubSel(i) == IF variant = "unknownsubsel" /\ i = Len(subs) THEN subs[i].sel \o "_zz" ELSE subs[i].sel
+SubLookup(i) == IF SubKindOf(kind) = "gas" THEN LowerOf(SubSel(i)) ELSE SubSel(i)     \* gas_type values are lower-cased, section names are not
+SubCands(i) == Cands(SubKindOf(kind), SubLookup(i))
+SubGivenNames(i) == {g.name : g \in subs[i].given} \cup (IF variant = "unknownsubkey" /\ i = Len(subs) THEN {"not_a_key"} ELSE {})
+SubTyped(i) == [n \in {g.name : g \in subs[i].given} |-> Transform((CHOOSE g \in subs[i].given : g.name = n).raw)]
+\* one class per sub-section, each ANY candidate of its selector (set iteration order)
+RECURSIVE SubPickSeqs(_)
+SubPickSeqs(i) == IF i > Len(subs) THEN {<<>>}
+                  ELSE {<<c>> \o t : c \in SubCands(i), t \in SubPickSeqs(i + 1)}
+
 \* determine_klass: split on '+', the LAST token names the base class ...
 Split ==
     /\ phase = "cfg"
     /\ front' = SubSeq(toks, 1, Len(toks) - 1)
-    /\ LET cs == Cands(kind, LowerOf(toks[Len(toks)]))
+    /\ LET last == LowerOf(toks[Len(toks)])
+           \* `custom` is the whole selector, never a token of a composite; the class is the one DEFINED in python_file
+           cs == IF last = "custom"
+                 THEN (IF Len(toks) = 1 THEN {[kind |-> c.kind, name |-> c.name, kw |-> {}, params |-> c.params, varkw |-> FALSE] : c \in CustomOf(base)} ELSE {})
+                 ELSE Cands(kind, last)
        IN  IF cs = {} THEN /\ phase' = "done" /\ bpick' = NoClass
                            /\ out' = [err |-> "error", why |-> "last token is not a base class"]
            ELSE /\ \E c \in cs : bpick' = c
                 /\ phase' = "mixins" /\ UNCHANGED out
-    /\ UNCHANGED <<kind, toks, nmix, variant, base, keys, vals, picks>>
+    /\ UNCHANGED <<kind, toks, nmix, variant, base, keys, vals, subs, picks>>
 
 \* ... and every token in front of it names a mixin, resolved one by one IN THE WRITTEN ORDER
 ResolveMixin ==
@@ -95,7 +151,7 @@ ResolveMixin ==
                            /\ out' = [err |-> "error", why |-> "token is not a mixin"]
            ELSE /\ \E m \in ms : picks' = Append(picks, m)
                 /\ UNCHANGED <<phase, out>>
-    /\ UNCHANGED <<kind, toks, nmix, variant, base, keys, vals, front, bpick>>
+    /\ UNCHANGED <<kind, toks, nmix, variant, base, keys, vals, subs, front, bpick>>
 
 \* the operation of one mixin under a map G of given raw values
 \* tab = MixOpTab: the chain of the probe method the plugin mixins define (built-in mixins do not take part);
@@ -121,17 +177,26 @@ Build ==
            owners == [i \in 1..Len(picks) |-> picks[i].name] \o <<bpick.name>>
            ownerOf(n) == IF n \in bpick.params THEN bpick.name
                          ELSE picks[CHOOSE i \in 1..Len(picks) : n \in picks[i].params].name  \* key names are unique across classes
-       IN  out' = IF \E n \in GivenNames : n \notin params
+           adds == \E i \in 1..Len(owners) : owners[i] \in SubAdders
+       IN  \E sp \in (IF \E i \in 1..Len(subs) : SubCands(i) = {} THEN {<<>>} ELSE SubPickSeqs(1)) :
+           out' = IF \E n \in GivenNames \ {"python_file"} : n \notin params
                   THEN [err |-> "error", why |-> "unknown key"]
+                  ELSE IF \E i \in 1..Len(subs) : SubCands(i) = {}
+                  THEN [err |-> "error", why |-> "unknown sub-section selector"]
+                  ELSE IF \E i \in 1..Len(subs) : \E n \in SubGivenNames(i) : n \notin sp[i].params
+                  THEN [err |-> "error", why |-> "unknown key in a sub-section"]
                   ELSE [err |-> "none",
+                        \* create_chemistry / create_model: every sub-section object is handed to the built component
+                        subs |-> IF adds THEN [i \in 1..Len(subs) |-> [name |-> subs[i].name, cls |-> sp[i].name, kwargs |-> SubTyped(i)]]
+                                 ELSE <<>>,
                         bases |-> owners,
                         initorder |-> Reverse([i \in 1..Len(picks) |-> picks[i].name]),
                         kwargs |-> [c \in {owners[i] : i \in 1..Len(owners)} |->
-                                       [n \in {g \in DOMAIN GivenRaw : ownerOf(g) = c} |-> TypedOf(n)]],
+                                       [n \in {g \in DOMAIN GivenRaw \ {"python_file"} : ownerOf(g) = c} |-> TypedOf(n)]],
                         coef |-> Unwind(picks, MixOpTab),
                         pcoef |-> Unwind(picks, MixProfTab)]
     /\ phase' = "done"
-    /\ UNCHANGED <<kind, toks, nmix, variant, base, keys, vals, front, picks, bpick>>
+    /\ UNCHANGED <<kind, toks, nmix, variant, base, keys, vals, subs, front, picks, bpick>>
 
 Next == Split \/ ResolveMixin \/ Build
 Spec == Init /\ [][Next]_vars
@@ -143,7 +208,8 @@ Ok == Done /\ out.err = "none"
 OrderedBases ==
     Ok => /\ Len(out.bases) = Len(toks)
           /\ \A i \in 1..Len(toks) - 1 : \E m \in MCands(kind, LowerOf(toks[i])) : m.name = out.bases[i]
-          /\ \E c \in Cands(kind, LowerOf(toks[Len(toks)])) : c.name = out.bases[Len(toks)]
+          /\ IF base.custom # "" THEN \E c \in CustomOf(base) : c.name = out.bases[Len(toks)] /\ c.name \notin c.imports
+             ELSE \E c \in Cands(kind, LowerOf(toks[Len(toks)])) : c.name = out.bases[Len(toks)]
 \* declarative reading of "the first mixin is applied last": Eval(<<m1,..,mk>>, x) = op(m1)(Eval(<<m2,..,mk>>, x))
 RECURSIVE EvalChain(_, _, _)
 EvalChain(ps, x, tab) == IF ps = <<>> THEN x
@@ -164,6 +230,18 @@ InvalidCompositeIsError ==
 UnknownKeyIsErrorMix ==
     (Done /\ variant = "unknownkey") => out.err = "error"
 PlainBuilds == (Done /\ variant = "plain") => out.err = "none"
+\* one object per sub-section, in the written order, of a class its selector names, with its keys typed
+SubsectionsReachComponent ==
+    (Ok /\ variant = "plain") =>
+        /\ Len(out.subs) = Len(subs)
+        /\ \A i \in 1..Len(subs) :
+              /\ out.subs[i].name = subs[i].name
+              /\ \E c \in SubCands(i) : c.name = out.subs[i].cls
+              /\ \A g \in subs[i].given : out.subs[i].kwargs[g.name] = Transform(g.raw)
+\* the form of the section's selector has no say in what its sub-sections build
+PlainSubs == [i \in 1..Len(subs) |-> [name |-> subs[i].name, cls |-> (CHOOSE c \in SubCands(i) : TRUE).name, kwargs |-> SubTyped(i)]]
+SubsFormIndependent == Ok => out.subs = PlainSubs
+UnknownInSubsectionIsError == (Done /\ variant \in SubVariants) => out.err = "error"
 CoefFits == Ok => Fits(out.coef[1]) /\ Fits(out.coef[2]) /\ Fits(out.pcoef[1]) /\ Fits(out.pcoef[2])
 
 \* the documentation's own numbers tie the operation table to the text
@@ -173,6 +251,9 @@ DocEval(sq, x) == LET c == UnwindG([i \in 1..Len(sq) |-> DocSel(sq[i])], Len(sq)
 ASSUME DocExample == /\ DocEval(<<"doubler", "add50">>, Q(1000)) = Q(2100)
                      /\ DocEval(<<"add50", "doubler">>, Q(1000)) = Q(2050)
 
+\* NON-VACUITY (must be refuted): sub-sections would only count under a selector without mixins
+SubsOnlyUnderPlainSelectors == (Ok /\ nmix > 0) => out.subs = <<>>
+
 \* NON-VACUITY (must be refuted): the order of the mixins would be irrelevant
 OrderIrrelevant ==
     Ok => Unwind(Reverse(picks), MixOpTab) = out.coef
@@ -181,6 +262,11 @@ Emit == (Export /\ Done) =>
     PrintT(<<"MIX", ToJson([kind |-> kind, toks |-> toks, variant |-> variant, nmix |-> nmix,
                             basesel |-> base.sel, basecls |-> base.cls,
                             given |-> GivenRaw,
+                            custom |-> base.custom,
+                            subs |-> [i \in 1..Len(subs) |-> [name |-> subs[i].name, sel |-> SubSel(i),
+                                         given |-> [n \in {g.name : g \in subs[i].given} |-> (CHOOSE g \in subs[i].given : g.name = n).raw],
+                                         unknownkey |-> variant = "unknownsubkey" /\ i = Len(subs)]],
+                            builtsubs |-> IF out.err = "none" THEN out.subs ELSE <<>>,
                             err |-> out.err,
                             bases |-> IF out.err = "none" THEN out.bases ELSE <<>>,
                             initorder |-> IF out.err = "none" THEN out.initorder ELSE <<>>,
